@@ -101,6 +101,16 @@ CLAIMS = {
              'canonical term in both configurations modulo one vetted identity wrapper. Positive/negative controls on a '
              'fixtures crate run every time. Not decided: that the vetted invariants hold; floating point.',
         ref='7/C20'),
+    'C09': dict(
+        technique='canonical function summaries vs reviewed closed-form reference terms; one-iteration loop summary of the generic inverse',
+        text='Narrow claim: the closed-form SBFs and inverses of Periodic, Constrained and Dedicated, the constructor '
+             'preconditions and the forwarding impls compute exactly the reviewed reference terms (Shin & Lee periodic resource '
+             'model; deadline-reduced blackout), and the default jump-ahead service_time starts at demand, returns exactly '
+             'under supply >= demand and advances by the missing service. Any edit to these functions is reported. NOT decided: '
+             'that the closed forms are the minimum over all budget placements, that service_time is the exact pseudo-inverse '
+             'for every demand, or the equalities Constrained(D=P) = Periodic and Periodic(B=P) = Dedicated as functions -- '
+             'those quantify over values and no static argument in reach bounds them.',
+        ref='9 and 15'),
     'C10': dict(
         technique='canonical function summaries vs reviewed reference terms; zero/jitter/delegation clauses on terms',
         text='Arrival models: each number_arrivals / clone_with_jitter / helper is summarised as a canonical term and compared '
@@ -164,9 +174,6 @@ CLAIMS = {
 
 NOT_YET = 'clauses designed in DESIGN.md section 7 but not yet implemented in this commit'
 NA = {
-    'C09': 'closed-form integer arithmetic of supply-bound functions: the property is about values against all '
-           'budget placements; no clause of it is visible in code shape (panic-freedom of the same code is '
-           'decided under C20)',
     'C15': 'floating-point quantile: result, termination and monotonicity depend on rounding/overflow/underflow; '
            'not decidable by static analysis of code shape (the unbounded loop is reported under C20)',
 }
